@@ -29,8 +29,28 @@ ROUTES = [
     ("PVLEncoder", {}), ("ODLEncoder", {}), ("PDSLabelEncoder", {}), ("ISISEncoder", {}), ("dumps", {}),
     ("PDSLabelEncoder", {"convert_group_to_object": False}), ("PDSLabelEncoder", {"width": 20}),
     ("PVLEncoder", {"width": 20}), ("dumps", {"aggregation_end": False, "indent": 0}),
+    ("new.dumps", {}),          # the same module in the pvl.new container classes, through pvl.new.dumps
 ]
-PDS_ROUTES = ("PDSLabelEncoder", "dumps")
+PDS_ROUTES = ("PDSLabelEncoder", "dumps", "new.dumps")
+CONVERSIONS = {("PVLGroup", "PVLObject"), ("PVLGroupNew", "PVLObjectNew")}
+
+
+def to_new(x):
+    """The same content in the multidict-based container classes of pvl.new (other values shared)."""
+    import pvl.collections as pc
+    if isinstance(x, pc.OrderedMultiDict):
+        cls = (pc.PVLModuleNew if isinstance(x, pc.PVLModule) else pc.PVLGroupNew if isinstance(x, pc.PVLGroup)
+               else pc.PVLObjectNew if isinstance(x, pc.PVLObject) else pc.PVLMultiDict)
+        m = cls()
+        for k, v in x:
+            m.append(k, to_new(v))
+        return m
+    return x
+
+
+def build_for(mdesc, route):
+    m = G.build(mdesc)
+    return to_new(m) if route == "new.dumps" else m
 
 
 def snap(x):
@@ -96,7 +116,7 @@ def diff(before, after, route, mdesc):
             break
         if vb == va:
             continue
-        if (vb[0] == "map" and va[0] == "map" and vb[1] == "PVLGroup" and va[1] == "PVLObject"
+        if (vb[0] == "map" and va[0] == "map" and (vb[1], va[1]) in CONVERSIONS
                 and content(vb) == content(va)):
             conv += 1
             if route not in PDS_ROUTES:
@@ -137,6 +157,9 @@ def call(route, opts, m):
         try:
             if route == "dumps":
                 return ("ok", pvl.dumps(m, **opts))
+            if route == "new.dumps":
+                import pvl.new
+                return ("ok", pvl.new.dumps(m, **opts))
             return ("ok", getattr(pe, route)(**opts).encode(m))
         except (ValueError, TypeError) as e:
             return ("refused", type(e).__name__, str(e))
@@ -147,10 +170,10 @@ def call(route, opts, m):
 def check_one(mdesc, route, opts, same_instance=False):
     """-> (accepted?, [(subkey, what)], text)"""
     import pvl.encoder as pe
-    m = G.build(mdesc)
+    m = build_for(mdesc, route)
     before = snap(m)
     outs = []
-    if same_instance and route != "dumps":
+    if same_instance and route not in ("dumps", "new.dumps"):
         with warnings.catch_warnings():
             warnings.simplefilter("ignore")
             enc = getattr(pe, route)(**opts)
@@ -267,6 +290,8 @@ def _run(ctx, s, tasks):
 
 def _call(route, opts):
     o = ", ".join(f"{k}={v!r}" for k, v in opts.items())
+    if route == "new.dumps":
+        return f"m = to_new(m)  # vf.rtc.c13_dump_pure.to_new: the pvl.new container classes; pvl.new.dumps(m{', ' + o if o else ''})"
     return f"pvl.dumps(m{', ' + o if o else ''})" if route == "dumps" else f"{route}({o}).encode(m)"
 
 
@@ -284,7 +309,7 @@ def sections(ctx):
                      + " over an item pool (scalars, duplicate keys, valid PDS groups, two groups with one name, groups "
                      "that are not PDS groups - nested group, ^PTR = 5, repeated key -, objects, nested dicts, a scalar "
                      "sharing a group's name), as PVLModule and (unique keys) as plain dict, plus every boundary value "
-                     "once; x 9 routes (4 encoders, pvl.dumps, option variants); three calls, deep identity-sensitive "
+                     "once; x 10 routes (4 encoders, pvl.dumps, option variants, pvl.new.dumps on the same module in the pvl.new classes); three calls, deep identity-sensitive "
                      "snapshot before/after; distinct = (module, route, options)",
                 bounds={"item_pool": len(ITEMS) + (len(ITEMS_MORE) if ctx.thorough else 0), "max_items": 4 if ctx.thorough else 3,
                         "routes": len(ROUTES), "modules": len(mods)})
